@@ -77,8 +77,119 @@ def invariants(segs, p1, p2, n, r, segtype, tmin, tmax, tapered):
     return None
 
 
+def geo_points(m):
+    """(tag, radius, [points]) per geo object, from the segments main computed"""
+    out = []
+    for g in m.geo:
+        if hasattr(g, 'segends'):
+            pts = [[float(x) for x in p] for p in g.segends]
+        else:
+            pts = [[float(x) for x in g.p1], [float(x) for x in g.p2]]
+        segs = [[[float(x) for x in s.p1], [float(x) for x in s.p2]] for s in g.segments]
+        out.append((g.tag, float(g.r), pts, segs))
+    return out
+
+
+def gen_pipeline(rng):
+    """a small structure given on the command line plus rotate / translate / scale options"""
+    objs, args = [], []
+    nobj = rng.randint(1, 3)
+    for t in range(1, nobj + 1):
+        if rng.random() < 0.6:
+            p1, p2 = rand_pt(rng, 3.0), rand_pt(rng, 3.0)
+            p1[2], p2[2] = abs(p1[2]) + 0.5, abs(p2[2]) + 0.5
+            n = rng.randint(2, 6)
+            args.append('-w%d,%d,%s,0.001' % (t, n, ','.join(repr(x) for x in p1 + p2)))
+        else:
+            n = rng.randint(3, 8)
+            args.append('-a%d,%d,%r,%r,%r,0.001' % (t, n, rng.uniform(0.5, 2), rng.choice([0.0, 30.0]), rng.choice([90.0, 180.0, 270.0])))
+    rots, trans, scales = [], [], []
+    for _ in range(rng.randint(0, 2)):
+        key = rng.choice([1, 2, 3, 0.5, 2])
+        rot = [rng.choice([0.0, 90.0, rng.uniform(-180, 180)]) for _ in range(3)]
+        tag = rng.choice([None, None, rng.randint(1, nobj)])
+        rots.append((float(key), rot, tag))
+    for _ in range(rng.randint(0, 2)):
+        key = rng.choice([1, 2, 3, 0.5, 2])
+        tr = [rng.choice([0.0, rng.uniform(-2, 2)]) for _ in range(2)] + [rng.uniform(0.3, 2)]
+        tag = rng.choice([None, None, rng.randint(1, nobj)])
+        trans.append((float(key), tr, tag))
+    for _ in range(rng.choice([0, 1, 1, 2])):
+        scales.append((rng.choice([0.3048, 2.0, 0.0254, rng.uniform(0.1, 5)]), rng.choice([None, None, None, rng.randint(1, nobj)])))
+    return args, rots, trans, scales
+
+
+def pipeline_args(args, rots, trans, scales):
+    a = list(args) + ['--excitation-pulse=1']
+    for key, v, tag in rots:
+        a.append('--geo-rotate=%r,%s%s' % (key, ','.join(repr(x) for x in v), '' if tag is None else ',%d' % tag))
+    for key, v, tag in trans:
+        a.append('--geo-translate=%r,%s%s' % (key, ','.join(repr(x) for x in v), '' if tag is None else ',%d' % tag))
+    for f, tag in scales:
+        a.append('--geo-scale=%r%s' % (f, '' if tag is None else ',%d' % tag))
+    return a
+
+
+def run_main(argv):
+    import io, contextlib
+    from mininec.mininec import main
+    buf = io.StringIO()
+    with contextlib.redirect_stdout(buf):
+        m = main(argv, f_err=buf, return_mininec=True)
+    return m, buf.getvalue()
+
+
+def pipeline_property(args, rots, trans, scales):
+    """C13 on the implementation alone: after main's pipeline every object is congruent to the
+    untransformed one scaled by the product of its scale factors (radius included), a structure-wide
+    translation with the smallest key and no rotations moves every point by factor * vector, and
+    points = rigid motions in key order followed by scaling (recomputed here with numpy)."""
+    from mininec.mininec import Rotation_Matrix
+    m0, _ = run_main(pipeline_args(args, [], [], []))
+    m1, out = run_main(pipeline_args(args, rots, trans, scales))
+    if isinstance(m1, int) or isinstance(m0, int):
+        return None
+    base, got = geo_points(m0), geo_points(m1)
+    ops = sorted([(k, 'r', v, t) for k, v, t in rots] + [(k, 't', v, t) for k, v, t in trans], key=lambda x: x[0])
+    for (tag, r0, pts0, _), (tag1, r1, pts1, segs1) in zip(base, got):
+        f = 1.0
+        for fac, t in scales:
+            if t is None or t == tag:
+                f *= fac
+        if abs(r1 - r0 * f) > 1e-12 * r0 * f:
+            return 'object %d: radius %r is not the original radius %r times the scale factor %r' % (tag, r1, r0, f)
+        exp = []
+        for p in pts0:
+            q = np.array(p)
+            for k, kind, v, t in ops:
+                if t is None or t == tag:
+                    q = Rotation_Matrix(v).apply(q) if kind == 'r' else q + np.array(v)
+            for fac, t in scales:
+                if t is None or t == tag:
+                    q = q * fac
+            exp.append(q)
+        sc = max(1.0, max(float(np.abs(q).max()) for q in exp))
+        for k, (q, p) in enumerate(zip(exp, pts1)):
+            if float(np.abs(q - np.array(p)).max()) > 1e-9 * sc:
+                return ('object %d point %d is at %s; rotations and translations in key order followed by scaling give %s'
+                        % (tag, k, [round(x, 6) for x in p], [round(float(x), 6) for x in q]))
+        # the segments tile the transformed object
+        if len(pts1) > 2:
+            for k, sg in enumerate(segs1):
+                if not close_v(sg[0], pts1[k], sc, 1e-9) or not close_v(sg[1], pts1[k + 1], sc, 1e-9):
+                    return 'object %d: segment %d does not join the transformed points' % (tag, k)
+        else:
+            if not close_v(segs1[0][0], pts1[0], sc, 1e-9) or not close_v(segs1[-1][1], pts1[1], sc, 1e-9):
+                return 'object %d: segments do not span the transformed end points' % tag
+    return ''
+
+
 def replay(rp):
     k = rp.get('kind')
+    if k == 'pipeline':
+        bad = pipeline_property(rp['args'], [tuple(x) for x in rp['rots']], [tuple(x) for x in rp['trans']], [tuple(x) for x in rp['scales']])
+        print('replay ->', bad or 'property holds')
+        return 1 if bad else 0
     if k == 'wire':
         w, segs = impl_wire(rp['p1'], rp['p2'], rp['n'], rp['r'], rp['segtype'], rp['tmin'], rp['tmax'])
         bad = invariants(segs, rp['p1'], rp['p2'], rp['n'], rp['r'], rp['segtype'], rp['tmin'], rp['tmax'], w.segtype != 0)
@@ -202,6 +313,35 @@ def run(ck):
             ck.case(('order', nr, nt, tuple(keys)), nr + nt > 1)
             if mo != impl:
                 dis.append(dict(why='transformation order', case=dict(nr=nr, keys=keys, impl=impl, model=mo)))
+    # the whole pipeline through main: command line -> transformed, scaled, segmented objects
+    for i in range(N // 4):
+        args, rots, trans, scales = gen_pipeline(rng)
+        m0, _ = run_main(pipeline_args(args, [], [], []))
+        m1, out = run_main(pipeline_args(args, rots, trans, scales))
+        if isinstance(m0, int) or isinstance(m1, int):
+            ck.count('pipeline_rejected')
+            continue
+        base, got = geo_points(m0), geo_points(m1)
+        ck.case(('pipeline', len(base), len(rots), len(trans), len(scales), tuple(x[-1] is None for x in rots + trans + scales)),
+                bool(scales) and bool(rots or trans),
+                sample=dict(kind='pipeline', args=pipeline_args(args, rots, trans, scales)) if i < 3 else None)
+        req = ['geom pipeline', len(rots), len(trans), len(scales), sum(len(b[2]) for b in base)]
+        for key, v, tag in rots + trans:
+            req += [f2b(key)] + [f2b(x) for x in v] + ['n' if tag is None else tag]
+        for f, tag in scales:
+            req += [f2b(f), 'n' if tag is None else tag]
+        for tag, r0, pts, _ in base:
+            for p in pts:
+                req += [tag] + [f2b(x) for x in p]
+        mp = vecs(d.ask(*req))
+        ip = [p for g in got for p in g[2]]
+        sc = max(1.0, max(abs(x) for p in ip for x in p))
+        case = dict(kind='pipeline', args=args, rots=rots, trans=trans, scales=scales)
+        if len(mp) != len(ip) or any(not close_v(a, b, sc, 1e-11) for a, b in zip(mp, ip)):
+            dis.append(dict(why='pipeline points', case=case))
+        bad = pipeline_property(args, rots, trans, scales)
+        if bad:
+            viol.append(dict(case, observed=bad))
     ck.stats['disagreements'] = len(dis)
     ck.cov['rule'] = ('wires with 1..200 segments, equal / taper end 1 / end 2 / both, radii seg/5..seg/1000, random minimum and '
                       'maximum (accepted and rejected), arcs (incl. negative spans, full circle), helices (all sign combinations, '
@@ -212,7 +352,7 @@ def run(ck):
                        'taper positivity / ratio / min / max clauses are not theorems: they are evaluated on every generated taper (implementation side)']
     seen = set()
     for v in viol:
-        key = v['observed'][:40]
+        key = v['observed'][:40] if v.get('kind') != 'pipeline' else 'pipeline'
         if key in seen:
             continue
         seen.add(key)
